@@ -30,8 +30,8 @@ def plan(tier, seed):
         specs.append({"klass": "layout", "i": k})
     for k in range(6 if tier == "quick" else 40):
         specs.append({"klass": "annotations", "i": k})
-    for k in range(2 if tier == "quick" else 12):
-        specs.append({"klass": "progress", "i": k, "soft_timeout": 400})
+    for k in range(3 if tier == "quick" else 12):
+        specs.append({"klass": "progress", "i": k, "soft_timeout": 400 if tier == "quick" else 900})
     for s in specs:
         s["prop"] = ID
         s.setdefault("soft_timeout", 240)
@@ -91,7 +91,10 @@ def run_case(spec, ctx):
         return out
     if spec["klass"] == "progress":
         bound = max(20.0, 40 * base_time)
-        for tx in textmut.HANG_TEXTS[: 1 if spec.get("tier") == "quick" else 3]:
+        k_ = spec["i"]
+        # quick: one text per case (the pint power tower, then the long sentences); thorough: all of them
+        hang = ([textmut.HANG_TEXTS[0]] if k_ == 0 else [textmut.HANG_TEXTS[3 + (k_ - 1) % 2]]) if spec.get("tier") == "quick" else textmut.HANG_TEXTS
+        for tx in hang:
             allp = list(textmut.comment_edits(lines, rng, [tx]))
             pick = [e for e in allp if e[0] == "trailing_assignment"][:1] + [e for e in allp if e[0] in ("header", "between_blocks", "trailing_declaration_block", "end_of_file")][spec["i"] % 4 :: 4][:1]
             for label, _, text in pick:
